@@ -132,6 +132,14 @@ func (e *SpecEnv) lookup(name string) (Value, bool) {
 		return v, true
 	}
 	if !e.calleeMode {
+		// captured variable of the closure under verification: its current content
+		if cell, ok := e.ex.fvCells[name]; ok {
+			if v, ok := e.cur.cells[cell]; ok {
+				return v, true
+			}
+		}
+	}
+	if !e.calleeMode {
 		if v, ok := e.cur.names[name]; ok {
 			return v, true
 		}
@@ -846,6 +854,11 @@ func (e *SpecEnv) callExpr(n *ast.CallExpr) Value {
 	case "atype":
 		r := e.refTerm(e.eval(arg(0)), n)
 		return IntV{T: atypeOf(ex.st, r), W: 64, Signed: true}
+	case "stopped": // ghost: yield has returned false (iterator protocol)
+		if b, ok := e.cur.ghost["stopped"].(BoolV); ok {
+			return b
+		}
+		return BoolV{T: False}
 	case "scratchLen": // bytes currently held by a collate.Buffer (ghost)
 		r := e.refTerm(e.eval(arg(0)), n)
 		return IntV{T: Select(e.cur.H(ex, "collateBuf.len", ArrSort(SRef, SInt)), r), W: 64, Signed: true}
